@@ -43,7 +43,8 @@ def sym_tokens(sym: str, depth: int):
     raise AssertionError(sym)
 
 
-def history(syms):
+def history(syms, b=""):
+    """`b="b"`: the caller's frame carries a bytearray that it rewrites in place"""
     toks = [f"new:0:{frame(9, 9, 9, '99')}"]
     fragon = True
     for d, s in enumerate(syms):
@@ -52,6 +53,8 @@ def history(syms):
                 fragon = not fragon
                 t = f"frag:{int(fragon)}"
             toks.append(t)
+    if b:
+        toks = [t.replace("new:", "newb:", 1).replace("mut:", "mutb:", 1) for t in toks]
     return "q fixed 3 " + " ".join(toks)
 
 
@@ -100,6 +103,12 @@ class C12(PropCheck):
         res.exhaustive_blocks.append(f"all {len(alpha2)}^{d2} histories over {alpha2} after a 3-frame prefix")
         for syms in itertools.product(alpha2, repeat=d2):
             out.append((history(("E0", "E1", "E2") + syms), "exh-capacity"))
+        d3 = 5 if tier == "quick" else 6
+        res.exhaustive_blocks.append(
+            f"all {len(alpha)}^{d3} histories over {alpha} in which the reused caller frame carries a "
+            "bytearray message that is rewritten in place between enqueues")
+        for syms in itertools.product(alpha, repeat=d3):
+            out.append((history(syms, b="b"), "exh-inplace"))
         n = 3000 if tier == "quick" else 40000
         for _ in range(n):
             out.append((self.random_history(rng, in_scope=True), "rnd-in-scope"))
@@ -110,8 +119,10 @@ class C12(PropCheck):
     def random_history(self, rng, in_scope: bool):
         toks = []
         nvars = 3
+        # half the histories use mutable message buffers that the caller rewrites in place
+        b = "b" if rng.random() < 0.5 else ""
         for v in range(nvars):
-            toks.append(f"new:{v}:{self.rand_frame(rng, in_scope)}")
+            toks.append(f"new{b}:{v}:{self.rand_frame(rng, in_scope)}")
         fragon = True
         owned = set(range(nvars))      # vars bound to caller-owned objects
         bound = set(range(nvars))
@@ -120,7 +131,7 @@ class C12(PropCheck):
             if r < 0.40:
                 v = rng.choice(sorted(owned)) if in_scope else rng.choice(sorted(bound))
                 if rng.random() < 0.7:
-                    toks.append(f"mut:{v}:{self.rand_frame(rng, in_scope)}")
+                    toks.append(f"mut{b}:{v}:{self.rand_frame(rng, in_scope)}")
                 toks.append(f"enq:{v}")
             elif r < 0.60:
                 v = rng.choice([3, 4])
@@ -140,7 +151,7 @@ class C12(PropCheck):
                 toks.append(f"frag:{int(fragon)}")
             else:
                 v = rng.choice(sorted(owned)) if in_scope else rng.choice(sorted(bound))
-                toks.append(f"mut:{v}:{self.rand_frame(rng, in_scope)}")
+                toks.append(f"mut{b}:{v}:{self.rand_frame(rng, in_scope)}")
         return f"q fixed {rng.choice([0, 3, 65534, 65535])} " + " ".join(toks)
 
     def rand_frame(self, rng, in_scope):
@@ -198,9 +209,9 @@ class C12(PropCheck):
         for k, t in enumerate(toks):
             p = t.split(":")
             res = parts[k].split(" -> ", 1)[1].split(" ", 1)[0] if parts else None
-            if p[0] == "new":
+            if p[0] in ("new", "newb"):
                 vals[int(p[1])], owned[int(p[1])] = p[2], True
-            elif p[0] == "mut":
+            elif p[0] in ("mut", "mutb"):
                 if res == "skip":
                     continue
                 if not owned.get(int(p[1])):
